@@ -510,12 +510,17 @@ def execLocalTx (st : St) (tx : Tx) (obs : List Obs) : LocalRes :=
     else if !memkvset.isEmpty then .err .memsetLocal st obs
     else .ok st obs
 
-/-- `execTxOne`. -/
-def execTxOne (env : Env) (st : St) (feelog : Receipt) (tx : Tx) : OneRes :=
-  let st := st.startTx
+/-- `(*executor).isExecLocalSameTime`. -/
+def isExecLocalSameTime (env : Env) (execer : Bytes) : Bool :=
+  match loadDriver env execer with
+  | some d => d.sameTime
+  | none => false
+
+/-- `(*executor).Exec`: LocalDB access flags (ForkLocalDBAccess) around the driver's `Exec`, which runs
+under `recover` (a panic becomes `Ret.panic` = ErrExecPanic).  The `none` driver returns a nil receipt. -/
+def execPhase (env : Env) (st : St) (tx : Tx) : St × Ret (List (Bytes × Val)) × List Obs :=
   let drv := loadDriver env tx.execer
-  let same := match drv with | some d => d.sameTime | none => false
-  -- (*executor).Exec: access flags, driver Exec under recover
+  let same := isExecLocalSameTime env tx.execer
   let st := if env.forkLocalDBAccess then
       { st with ldb := { st.ldb with disablewrite := true, disableread := if same then st.ldb.disableread else true } }
     else st
@@ -525,27 +530,34 @@ def execTxOne (env : Env) (st : St) (feelog : Receipt) (tx : Tx) : OneRes :=
   let st := if env.forkLocalDBAccess then
       { st with ldb := { st.ldb with disablewrite := false, disableread := if same then st.ldb.disableread else false } }
     else st
-  match res with
-  | .err => .failed (addErr feelog .fail) st obs
-  | .panic => .failed (addErr feelog .panic) st obs
-  | .ok kv =>
+  (st, res, obs)
+
+/-- tail of `execTxOne`: merge the driver's receipt into the fee receipt, then (ForkStateDBSet) write
+every receipt KV through the StateDB. `synth = false` is the nil receipt of the `none` driver. -/
+def finishOk (env : Env) (st : St) (feelog : Receipt) (kv : List (Bytes × Val)) (synth : Bool)
+    (obs : List Obs) : OneRes :=
+  let feelog := if synth then { ty := 2, kv := feelog.kv ++ kv, logs := feelog.logs ++ [.user] } else feelog
+  let st := if env.forkStateDBSet then
+      { st with sdb := feelog.kv.foldl (fun s p => s.set p.1 p.2) st.sdb }
+    else st
+  .ok feelog st obs
+
+/-- `execTxOne`. -/
+def execTxOne (env : Env) (st : St) (feelog : Receipt) (tx : Tx) : OneRes :=
+  let drv := loadDriver env tx.execer
+  let same := isExecLocalSameTime env tx.execer
+  match execPhase env st.startTx tx with
+  | (st, .err, obs) => .failed (addErr feelog .fail) st obs
+  | (st, .panic, obs) => .failed (addErr feelog .panic) st obs
+  | (st, .ok kv, obs) =>
     if !C12.checkKV st.sdb.keys (kv.map (·.1)) then .failed (addErr feelog .memset) st obs
     else if kv.any (fun p => !isAllowExec env p.1 tx.execer) then .failed (addErr feelog .notAllowKey) st obs
-    else
-      let cont (st : St) (obs : List Obs) : OneRes :=
-        let feelog := match drv with
-          | some _ => { ty := 2, kv := feelog.kv ++ kv, logs := feelog.logs ++ [.user] }
-          | none => feelog
-        let st := if env.forkStateDBSet then
-            { st with sdb := feelog.kv.foldl (fun s p => s.set p.1 p.2) st.sdb }
-          else st
-        .ok feelog st obs
-      if same then
-        match execLocalTx st tx obs with
-        | .blockPanic => .blockPanic
-        | .err e st obs => .failed (addErr feelog e) st obs
-        | .ok st obs => cont st obs
-      else cont st obs
+    else if same then
+      match execLocalTx st tx obs with
+      | .blockPanic => .blockPanic
+      | .err e st obs => .failed (addErr feelog e) st obs
+      | .ok st obs => finishOk env st feelog kv drv.isSome obs
+    else finishOk env st feelog kv drv.isSome obs
 
 /-- result of one unit: receipts and per-transaction observations, or the block-level panic. -/
 inductive UnitRes
